@@ -122,9 +122,51 @@ def wavefront(di, dw, dr, order, kind="wr", trips=4):
     return f"do i = 2, {1 + trips}", ["do j = 1, 3"] + inner + ["enddo"], f"family:{kind}:{order}:di={di}:dw={dw}:dr={dr}"
 
 
-def family(full):
-    """the systematic family run first in every run (quick: a 76-member subset, thorough: all 126)"""
+def _perms(xs):
+    if len(xs) <= 1:
+        return [list(xs)]
+    return [[xs[k]] + p for k in range(len(xs)) for p in _perms(xs[:k] + xs[k + 1:])]
+
+
+def order_family(full):
+    """Multi-statement bodies over rank-1 arrays, EVERY order of the statements: one statement writes a(i), the
+    other access to `a` (a read at distance d in the parallel variable, or a second write) sits in ANOTHER statement —
+    directly, through a scalar temporary, inside an if-branch, inside an inner loop — so that the (write, other)
+    pair is met with the other access both before and after the write in the access sequence.
+    -> list of (header, body, tag)"""
+    def off(d):
+        return "i" if d == 0 else f"i{'+' if d > 0 else '-'}{abs(d)}"
+    dists = (-2, -1, 0, 1, 2) if full else (-1, 0, 1)
     out = []
+    for d in dists:
+        A = f"a({off(d)})"
+        shapes = {
+            # name: list of statements (each a list of lines)
+            "direct": [["a(i) = c(i) + i"], [f"b(i) = {A} * 2"]],
+            "temp": [[f"t = {A}"], ["b(i) = t + 1"], ["a(i) = c(i) + i"]],
+            "temp-to-write": [[f"t = {A} + c(i)"], ["a(i) = t"]],
+            "read-in-if": [["a(i) = c(i) + i"], ["if (c(i) > 2) then", f"  b(i) = {A}", "endif"]],
+            "write-in-if": [["if (c(i) > 2) then", "  a(i) = c(i) + i", "endif"], [f"b(i) = {A} * 2"]],
+            "read-in-loop": [["a(i) = c(i) + i"], ["do j = 1, 2", f"  m(j, i) = {A} + j", "enddo"]],
+            "write-in-loop": [["do j = 1, 2", "  a(i) = c(i) + j", "enddo"], [f"b(i) = {A} * 2"]],
+            "three": [["a(i) = c(i) + i"], [f"b(i) = {A} * 2"], ["c(i) = b(i) + 1"]],
+        }
+        if d != 0:
+            shapes["write-write"] = [["a(i) = c(i)"], [f"{A} = b(i)"]]
+            shapes["write-write-if"] = [["a(i) = c(i)"], ["if (c(i) > 2) then", f"  {A} = b(i)", "endif"]]
+        if not full:
+            shapes.pop("three")
+        for name, stmts in shapes.items():
+            for p in _perms(list(range(len(stmts)))):
+                body = [ln for k in p for ln in stmts[k]]
+                out.append(("do i = 2, 5", body, f"family:order:{name}:d={d}:perm={''.join(map(str, p))}"))
+    return out
+
+
+def family(full):
+    """the systematic family run first in every run: statement-order bodies (`order_family`), then the nests
+    (quick: a 76-member subset, thorough: all 126)"""
+    out = order_family(full)
     for order in ("ji", "ij"):
         for di in (-2, -1, 0, 1, 2):
             for dw in ((-1, 0, 1) if full else (0, 1)):
